@@ -202,6 +202,8 @@ def main():
                 m["excluded_known"] += s["excluded_known"]
                 m["excluded_bucket"] += s["excluded_bucket"]
                 m["inconclusive"] += s.get("inconclusive", 0)
+                if s.get("stopped_by_watchdog"):
+                    errors.append("clause %s: given up in one worker after %d cases hit the per-case wall-clock watchdog (inconclusive)" % (c["clause"], s.get("inconclusive", 0)))
                 m["max_line_events"] = max(m["max_line_events"], s.get("max_line_events", 0))
                 m["wall_s"] = max(m["wall_s"], c.get("wall_s", 0))
                 m["nt"].update(c["nt_digests"])
